@@ -1,19 +1,24 @@
 """C16 bounded stand-in: key-usage policy.
 
-For every assignment of capability flag sets to a primary key and 0..3 subkeys (all RSA-2048, so that every component
-is technically able to sign and to encrypt and only the flags decide), for the key forms public / private / locked /
-unlocked (+ a sample with only the selected subkey locked) and with flag enforcement on and off, the operations
-sign, certify, encrypt, decrypt are run on the real pgpy objects.
+For every assignment of capability flag sets to a primary key and 0..3 subkeys, for the key forms public / private /
+locked / unlocked (+ a sample where only the selected signing subkey is locked) and with flag enforcement on and off, the
+operations sign, certify, encrypt, decrypt are run on the real pgpy objects. Three key families:
+  S  Ed25519 primary, Ed25519 / NIST P-256 subkeys: every component can technically sign, only the flags decide
+     (sign, certify and all refusals are judged; encryption only where it must refuse);
+  E  Ed25519 primary, Curve25519 / NIST P-256 ECDH subkeys: every subkey can technically be encrypted to (encrypt,
+     decrypt and all refusals are judged; signing only where the primary or nobody is expected);
+  R  RSA-2048 everywhere (every component can do everything; a seeded sample because every private RSA operation of
+     `cryptography` costs ~50 ms of key validation), including primaries that carry the encryption flags.
 
 Oracle (independent of pgpy, computed from the assignment): the component that must be used is the first of
 [primary, subkeys in the order they were added] whose MOST RECENT self-signature grants the capability - primary:
-Certify always (RFC 4880 5.2.3.21 / 12.1: the primary key certifies) plus the flags of the most recent self-signature
-of the chosen identity; subkey: the flags of its most recent 0x18 binding signature (greatest creation time, ties: the
-one attached last). The produced signature must name that component in its issuer and issuer-fingerprint subpackets and
-verify under that component's public key with specs/indep.py; the produced PKESK must carry that component's key id and
-be decryptable with that component's secret key by specs/indep.py. If no component qualifies the operation must raise
-PGPError when enforcement is on; when enforcement is off it must not refuse and the output must name the component that
-was really used (which one is not prescribed by the property; the choice is recorded in `unenforced_choice`).
+Certify always plus the flags of the most recent self-signature of the chosen identity; subkey: the flags of its most
+recent 0x18 binding signature (greatest creation time, ties: the one attached last). The produced signature must name
+that component in its issuer and issuer-fingerprint subpackets and verify under that component's public key with
+specs/indep.py; the produced PKESK must carry that component's key id and be decryptable with that component's secret
+key by specs/indep.py. If no component qualifies the operation must raise PGPError when enforcement is on; when
+enforcement is off it must not refuse and the output must name the component that was really used (which one is not
+prescribed by the property; pgpy's choice is recorded in `unenforced_choice`).
 """
 import collections
 import datetime
@@ -54,19 +59,27 @@ def dt(s):
 class Subject(object):
     """a key built from an assignment, plus what the oracle needs to know about it"""
 
-    def __init__(self, asg, alg='rsa2048'):
+    def __init__(self, asg, fam='R'):
         # asg = {'p': flags of U0, 'p1': flags of U1 or None, 'subs': [[(flags, t), ...] bindings in attach order]}
         self.asg = asg
-        k = tpk.new_key(alg, T0, slot=0)
+        self.fam = fam
+        n = len(asg['subs'])
+        if fam == 'R':
+            algs = ['rsa2048'] * (n + 1)
+        elif fam == 'S':
+            algs = ['ed25519', 'ed25519', 'p256', 'ed25519'][:n + 1]
+        elif fam == 'E':
+            algs = ['ed25519', 'cv25519', 'ecdh256', 'cv25519'][:n + 1]
+        else:                                   # 'M': per-subkey algorithm given in the assignment
+            algs = ['ed25519'] + list(asg['algs'])
+        self.algs = algs
+        k = tpk.new_key(algs[0], T0, slot=0)
         k.add_uid(pgpy.PGPUID.new('U0', email='u0@example.org'), usage=kf(asg['p']), created=T0, **PREFSETS[0])
         if asg.get('p1') is not None:
             k.add_uid(pgpy.PGPUID.new('U1', email='u1@example.org'), usage=kf(asg['p1']), created=T0, **PREFSETS[0])
         self.sub_objs = []
         for i, binds in enumerate(asg['subs']):
-            if alg == 'rsa2048':
-                sk = tpk.new_key('rsa2048', T0, slot=1 + i)
-            else:
-                sk = tpk.new_key(['ed25519', 'cv25519', 'ed25519'][i] if alg == 'ed25519' else alg, T0)
+            sk = tpk.new_key(algs[1 + i], T0, slot=1 + i)
             fl, t = binds[0]
             k.add_subkey(sk, usage=kf(fl), created=dt(t))
             for fl, t in binds[1:]:
@@ -89,6 +102,13 @@ class Subject(object):
             out.append(binds[best][0])
         return out
 
+    def can(self, i, op):
+        """is component i technically able to perform op (a matter of its algorithm, not of the policy)"""
+        a = self.algs[i]
+        if a == 'rsa2048':
+            return True
+        return (a in ('ed25519', 'p256')) == (op in ('sign', 'certify'))
+
     def expected(self, op, user=None):
         """index of the component that must be used, or None"""
         for i, f in enumerate(self.eff(user)):
@@ -101,11 +121,13 @@ _OTHER = []
 
 
 def other():
+    """(private key, its public twin - kept alive because identities only weakly reference their key -, split export)"""
     if not _OTHER:
         o = tpk.new_key('ed25519', T0)
         o.add_uid(pgpy.PGPUID.new('Someone Else', email='else@example.org'), usage={KeyFlags.Certify, KeyFlags.Sign}, created=T0, **PREFSETS[0])
-        ks, _ = split_tpk(bytes(o.pubkey))
-        _OTHER.append((o, ks[0]))
+        opub = o.pubkey
+        ks, _ = split_tpk(bytes(opub))
+        _OTHER.append((o, opub, ks[0]))
     return _OTHER[0]
 
 
@@ -175,10 +197,12 @@ def check_encrypted(subj, msg, exp):
     return None, i
 
 
-def run_assignment(asg, forms, alg='rsa2048'):
+def run_assignment(asg, forms, fam='R'):
     """returns list of case results"""
     out = []
-    label = {'alg': alg, 'p': asg['p'], 'p1': asg.get('p1'), 'subs': [[list(b) for b in binds] for binds in asg['subs']]}
+    label = {'family': fam, 'p': asg['p'], 'p1': asg.get('p1'), 'subs': [[list(b) for b in binds] for binds in asg['subs']]}
+    if 'algs' in asg:
+        label['algs'] = list(asg['algs'])
 
     def rec(form, enforce, op, user, problem, kind='policy', extra=None):
         c = dict(label, form=form, enforce=enforce, op=op, user=user, kind=kind)
@@ -187,12 +211,13 @@ def run_assignment(asg, forms, alg='rsa2048'):
         out.append({'case': c, 'problem': problem, 'nontrivial': bool(asg['subs'])})
 
     try:
-        subj = Subject(asg, alg)
+        subj = Subject(asg, fam)
     except Exception as ex:
         rec('build', True, 'build', None, 'building the key raised %s: %s' % (type(ex).__name__, str(ex)[:80]), 'build')
         return out
     k = subj.k
-    o, ok = other()
+    o, opub, ok = other()
+    ouid = opub.userids[0]
     users = [None] if asg.get('p1') is None else ['U0', 'U1']
     pub = k.pubkey
     ncomp = len(subj.comps)
@@ -204,36 +229,54 @@ def run_assignment(asg, forms, alg='rsa2048'):
     kp, _ = split_tpk(bytes(pub))
     primary_only = kp[0]['raw'] + b''.join(r['raw'] for r in kp[0]['sigs']) + \
         b''.join(u['raw'] + b''.join(r['raw'] for r in u['sigs']) for u in kp[0]['uids'])
+    holder = []
     for i in range(ncomp):
+        if not subj.can(i, 'encrypt'):
+            addressed.append(None)
+            continue
         try:
             if i == 0:
                 target, _ = pgpy.PGPKey.from_blob(primary_only)
             else:
-                target, _ = pgpy.PGPKey.from_blob(bytes(pub))
-                target = list(target.subkeys.values())[i - 1]
+                whole, _ = pgpy.PGPKey.from_blob(bytes(pub))
+                holder.append(whole)
+                target = list(whole.subkeys.values())[i - 1]
             target._require_usage_flags = False
             addressed.append(target.encrypt(pgpy.PGPMessage.new(TEXT)))
         except Exception as ex:
-            addressed.append(None)          # e.g. an EdDSA component cannot be encrypted to
+            addressed.append(None)
+            rec('public', False, 'encrypt', None, 'encrypting to the single component %d raised %s: %s' % (i, type(ex).__name__, str(ex)[:60]),
+                extra={'addressed': i})
+    last_msg = next((m for m in reversed(addressed) if m is not None), None)
+
+    def judge_signing(form, obj, enforce, user, kw):
+        exp = subj.expected('sign', user)
+        if exp is None and not enforce and not subj.can(ncomp - 1, 'sign') and not subj.can(0, 'sign'):
+            return
+        st, val = attempt(lambda: obj.sign(TEXT, created=dt(50), **kw))
+        if exp is None and enforce:
+            rec(form, enforce, 'sign', user, None if st == 'refused' else 'sign did not refuse with PGPError (%s: %s)' % (st, str(val)[:80]))
+        elif exp is None and st != 'ok' and not all(subj.can(i, 'sign') for i in range(ncomp)):
+            return              # unenforced and pgpy picked a component that cannot sign at all: nothing the property prescribes
+        elif st != 'ok':
+            rec(form, enforce, 'sign', user, 'sign failed although %s: %s %s' % (
+                'component %d grants Sign' % exp if exp is not None else 'enforcement is off', st, val))
+        else:
+            p, used = check_signature(subj, val, exp, {'document': TEXT.encode()}, enforce)
+            rec(form, enforce, 'sign', user, p, extra={'used': used} if exp is None else None)
 
     def private_ops(form, obj, enforce, usable):
         """usable: the secret material can be used (private / unlocked)"""
         obj._require_usage_flags = enforce
         for user in users:
             kw = {} if user is None else {'user': user}
-            # sign
-            exp = subj.expected('sign', user)
-            st, val = attempt(lambda: obj.sign(TEXT, created=dt(50), **kw))
-            if not usable or (exp is None and enforce):
-                rec(form, enforce, 'sign', user, None if st == 'refused' else 'sign did not refuse with PGPError (%s: %s)' % (st, str(val)[:80]))
-            elif st != 'ok':
-                rec(form, enforce, 'sign', user, 'sign failed although %s: %s %s' % (
-                    'component %d grants Sign' % exp if exp is not None else 'enforcement is off', st, val))
+            if usable:
+                judge_signing(form, obj, enforce, user, kw)
             else:
-                p, used = check_signature(subj, val, exp, {'document': TEXT.encode()}, enforce)
-                rec(form, enforce, 'sign', user, p, extra={'used': used} if exp is None else None)
+                st, val = attempt(lambda: obj.sign(TEXT, created=dt(50), **kw))
+                rec(form, enforce, 'sign', user, None if st == 'refused' else 'sign did not refuse with PGPError (%s: %s)' % (st, str(val)[:80]))
             # certify somebody else's identity: always the primary
-            st, val = attempt(lambda: obj.certify(o.pubkey.userids[0], created=dt(50), **kw))
+            st, val = attempt(lambda: obj.certify(ouid, created=dt(50), **kw))
             if not usable:
                 rec(form, enforce, 'certify', user, None if st == 'refused' else 'certify did not refuse with PGPError (%s: %s)' % (st, str(val)[:80]))
             elif st != 'ok':
@@ -262,6 +305,10 @@ def run_assignment(asg, forms, alg='rsa2048'):
         for user in users:
             kw = {} if user is None else {'user': user}
             exp = subj.expected('encrypt', user)
+            if exp is not None and not subj.can(exp, 'encrypt'):
+                continue        # the flags point at a component whose algorithm cannot encrypt (families S/E): judged in family R
+            if exp is None and not enforce and not all(subj.can(i, 'encrypt') for i in range(ncomp)):
+                continue
             st, val = attempt(lambda: obj.encrypt(pgpy.PGPMessage.new(TEXT), **kw))
             if exp is None and enforce:
                 rec(form, enforce, 'encrypt', user, None if st == 'refused' else 'encrypt did not refuse with PGPError (%s)' % st)
@@ -271,10 +318,10 @@ def run_assignment(asg, forms, alg='rsa2048'):
             else:
                 p, used = check_encrypted(subj, val, exp)
                 rec(form, enforce, 'encrypt', user, p, extra={'used': used} if exp is None else None)
-        for op, f in (('sign', lambda: obj.sign(TEXT)), ('certify', lambda: obj.certify(o.pubkey.userids[0])),
-                      ('decrypt', lambda: obj.decrypt(addressed[-1])), ('revoke', lambda: obj.revoke(obj)),
-                      ('bind', lambda: obj.bind(list(obj.subkeys.values())[0]) if obj.subkeys else obj.revoker(o.pubkey))):
-            if op == 'decrypt' and addressed[-1] is None:
+        for op, f in (('sign', lambda: obj.sign(TEXT)), ('certify', lambda: obj.certify(ouid)),
+                      ('decrypt', lambda: obj.decrypt(last_msg)), ('revoke', lambda: obj.revoke(obj)),
+                      ('bind', lambda: obj.bind(list(obj.subkeys.values())[0]) if obj.subkeys else obj.revoker(opub))):
+            if op == 'decrypt' and last_msg is None:
                 continue
             st, val = attempt(f)
             rec(form, enforce, op, None, None if st == 'refused' else '%s on a public key did not refuse with PGPError (%s: %s)' % (op, st, str(val)[:60]))
@@ -285,9 +332,9 @@ def run_assignment(asg, forms, alg='rsa2048'):
         if 'private' in forms:
             private_ops('private', k, enforce, True)
     if 'sublocked' in forms and asg['subs']:
-        # only the component that the policy selects for signing is locked (mixed protection): still a locked key for that operation
+        # only the component that the policy selects for signing is locked (mixed protection): a locked key for that operation
         exp = subj.expected('sign')
-        if exp:
+        if exp and subj.can(exp, 'sign'):
             sk = subj.sub_objs[exp - 1]
             sk.protect('sub-pw', SymmetricKeyAlgorithm.AES128, HashAlgorithm.SHA256)
             k._require_usage_flags = True
@@ -301,8 +348,7 @@ def run_assignment(asg, forms, alg='rsa2048'):
                 rec('sublocked-unlocked', True, 'sign', None, p, kind='mixed-lock')
         return out
     if 'locked' in forms or 'unlocked' in forms:
-        if not k.is_protected:
-            k.protect('pw', SymmetricKeyAlgorithm.AES128, HashAlgorithm.SHA256)
+        k.protect('pw', SymmetricKeyAlgorithm.AES128, HashAlgorithm.SHA256)
         for enforce in (True, False):
             if 'locked' in forms:
                 private_ops('locked', k, enforce, False)
@@ -315,24 +361,28 @@ def run_assignment(asg, forms, alg='rsa2048'):
 
 
 def no_identity_cases():
-    """a key without an identity refuses everything but its first self-certification"""
+    """a key without an identity refuses everything but its first self-certification (and a refusal leaves the key as it was)"""
     out = []
-    o, ok = other()
-    for alg in ('ed25519', 'rsa2048'):
-        k = tpk.new_key(alg, T0, slot=0)
-        full = Subject({'p': C | S | EC, 'subs': []}, alg='rsa2048')
-        m = full.k.pubkey.encrypt(pgpy.PGPMessage.new(TEXT))
-        ops = [('sign', lambda: k.sign(TEXT)), ('certify-other-uid', lambda: k.certify(o.pubkey.userids[0])),
-               ('certify-other-key', lambda: k.certify(o.pubkey)), ('revoke', lambda: k.revoke(k)), ('revoker', lambda: k.revoker(o.pubkey)),
-               ('decrypt', lambda: k.decrypt(m)), ('add_subkey', lambda: k.add_subkey(tpk.new_key('ed25519', T0), usage={KeyFlags.Sign})),
-               ('pub.encrypt', lambda: k.pubkey.encrypt(pgpy.PGPMessage.new(TEXT))), ('pub.sign', lambda: k.pubkey.sign(TEXT))]
+    o, opub, ok = other()
+    full = Subject({'p': C | S, 'subs': [[(EC, 0)]]}, 'E')
+    m = full.k.pubkey.encrypt(pgpy.PGPMessage.new(TEXT))
+    for alg in ('ed25519', 'p256'):
+        ops = [('sign', lambda k: k.sign(TEXT)), ('certify-other-uid', lambda k: k.certify(opub.userids[0])),
+               ('certify-other-key', lambda k: k.certify(opub)),
+               ('certify-other-uid-with-hash', lambda k: k.certify(opub.userids[0], hash=HashAlgorithm.SHA256)), ('revoke', lambda k: k.revoke(k)), ('revoker', lambda k: k.revoker(opub)),
+               ('decrypt', lambda k: k.decrypt(m)), ('add_subkey', lambda k: k.add_subkey(tpk.new_key('ed25519', T0), usage={KeyFlags.Sign})),
+               ('pub.encrypt', lambda k: k.pubkey.encrypt(pgpy.PGPMessage.new(TEXT))), ('pub.sign', lambda k: k.pubkey.sign(TEXT))]
         for name, f in ops:
-            st, val = attempt(f)
+            k = tpk.new_key(alg, T0)
+            before = bytes(k)
+            st, val = attempt(lambda: f(k))
+            p = None if st == 'refused' else '%s on a key without identity did not refuse with PGPError (%s)' % (name, st)
+            if p is None and bytes(k) != before:
+                p = 'the refused %s changed the key (%d -> %d octets exported)' % (name, len(before), len(bytes(k)))
             out.append({'case': {'alg': alg, 'form': 'no-identity', 'op': name, 'kind': 'no-identity', 'enforce': True},
-                        'problem': None if st == 'refused' else '%s on a key without identity did not refuse with PGPError (%s)' % (name, st),
-                        'nontrivial': True})
+                        'problem': p, 'nontrivial': True})
+        k = tpk.new_key(alg, T0)
         st, val = attempt(lambda: k.add_uid(pgpy.PGPUID.new('First'), usage={KeyFlags.Certify, KeyFlags.Sign}, created=T0, **PREFSETS[0]))
-        p = None
         if st != 'ok':
             p = 'first self-certification refused: %s' % str(val)[:60]
         else:
@@ -344,73 +394,96 @@ def no_identity_cases():
     return out
 
 
+NOSIGN6 = [C, EC, ES, AU, 0, EC | ES]
+
+
 def assignments(tier, seed):
+    """list of (assignment, family, origin)"""
     rnd = random.Random(seed)
     sets = FLAGSETS6 if tier == 'quick' else FLAGSETS8
     out = []
     for n in range(0, 4):
         for p in sets:
             for subs in itertools.product(sets, repeat=n):
-                out.append(({'p': p, 'p1': None, 'subs': [[(f, 0)] for f in subs]}, 'grid'))
-    # re-bound subkeys (later and equal times), two identities with different flags, the union flag sets
-    nextra = 250 if tier == 'quick' else 1500
+                out.append(({'p': p, 'p1': None, 'subs': [[(f, 0)] for f in subs]}, 'S', 'grid'))
+            if n:
+                for subs in itertools.product(NOSIGN6, repeat=n):
+                    out.append(({'p': p, 'p1': None, 'subs': [[(f, 0)] for f in subs]}, 'E', 'grid'))
+    # re-bound subkeys (later and equal times), two identities with different flags, the union flag sets, mixed algorithms
+    nextra = 300 if tier == 'quick' else 2000
+    signsets = [S, AU, 0, C, C | S, S | AU]
     for i in range(nextra):
         n = rnd.randint(1, 3)
+        subs, algs = [], []
+        for j in range(n):
+            a = rnd.choice(['ed25519', 'cv25519', 'p256', 'ecdh256'])
+            menu = signsets if a in ('ed25519', 'p256') else NOSIGN6
+            binds = [(rnd.choice(menu), 0)]
+            for r in range(rnd.choice([0, 1, 1, 2])):
+                binds.append((rnd.choice(menu), rnd.choice([0, 0, 1, 2])))
+            subs.append(binds)
+            algs.append(a)
+        out.append(({'p': rnd.choice([C, S, AU, 0, C | S]), 'p1': rnd.choice([None, None, C, S, AU, 0, C | S]), 'subs': subs, 'algs': algs}, 'M', 'extra'))
+    nrsa = 32 if tier == 'quick' else 200
+    for i in range(nrsa):
+        n = rnd.randint(0, 3)
         subs = []
         for j in range(n):
             binds = [(rnd.choice(FLAGSETS8), 0)]
-            for r in range(rnd.choice([0, 1, 1, 2])):
-                binds.append((rnd.choice(FLAGSETS8), rnd.choice([0, 0, 1, 2])))
+            if rnd.random() < 0.4:
+                binds.append((rnd.choice(FLAGSETS8), rnd.choice([0, 1])))
             subs.append(binds)
-        out.append(({'p': rnd.choice(FLAGSETS8), 'p1': rnd.choice([None, None] + FLAGSETS8), 'subs': subs}, 'extra'))
+        out.append(({'p': rnd.choice(FLAGSETS8 + [EC, ES]), 'p1': rnd.choice([None, None] + FLAGSETS8), 'subs': subs}, 'R', 'rsa'))
     return out
 
 
 def _worker(args):
     warnings.simplefilter('ignore')
+    import logging
+    logging.disable(logging.CRITICAL)
     tpk.fast_s2k()
     chunk, widx = args
     res = []
-    for n, (asg, origin) in enumerate(chunk):
+    for n, (asg, fam, origin) in enumerate(chunk):
         if origin == 'grid':
             # every grid assignment: public + private; every 4th also locked/unlocked, every 9th the mixed-lock sample
             forms = ['public', 'private']
-            if n % 9 == 4 and asg['subs']:
+            if n % 9 == 4 and asg['subs'] and fam == 'S':
                 forms.append('sublocked')
             elif n % 4 == 0:
                 forms += ['locked', 'unlocked']
+        elif origin == 'rsa':
+            forms = ['public', 'private', 'unlocked'] if n % 2 else ['public', 'private', 'locked']
         else:
             forms = ['public', 'private', 'locked', 'unlocked'] if n % 7 else ['public', 'private', 'sublocked']
         try:
-            res += run_assignment(asg, forms)
+            res += run_assignment(asg, forms, fam)
         except Exception as ex:
             tb = traceback.extract_tb(ex.__traceback__)[-1]
-            res.append({'case': {'p': asg['p'], 'subs': asg['subs'], 'kind': 'harness', 'form': 'harness', 'op': 'harness', 'enforce': None},
+            res.append({'case': {'family': fam, 'p': asg['p'], 'subs': asg['subs'], 'kind': 'harness', 'form': 'harness', 'op': 'harness', 'enforce': None},
                         'problem': 'harness error: %s: %s (%s:%d)' % (type(ex).__name__, str(ex)[:80], os.path.basename(tb.filename), tb.lineno),
                         'nontrivial': False})
     if widx == 0:
         res += no_identity_cases()
-        # elliptic-curve keys: the algorithm restricts what a component can do, so only matching flags are assigned
-        for asg in ({'p': C | S, 'subs': [[(S, 0)], [(EC | ES, 0)]]}, {'p': C, 'subs': [[(AU, 0), (S, 1)], [(ES, 0)]]},
-                    {'p': C, 'subs': [[(S, 0), (AU, 0)], [(EC, 0)], [(S, 0)]]}, {'p': C | S, 'p1': C, 'subs': [[(S, 0)], [(EC, 0)]]}):
-            try:
-                res += run_assignment(asg, ['public', 'private', 'locked', 'unlocked'], alg='ed25519')
-            except Exception as ex:
-                res.append({'case': {'alg': 'ed25519', 'p': asg['p'], 'subs': asg['subs'], 'kind': 'harness', 'form': 'harness', 'op': 'harness', 'enforce': None},
-                            'problem': 'harness error: %s: %s' % (type(ex).__name__, str(ex)[:80]), 'nontrivial': False})
     return res
 
 
 def component(tier='quick', seed=0, known=()):
     warnings.simplefilter('ignore')
     asgs = assignments(tier, seed)
+    for slot in (0, 1, 2, 3):
+        tpk.slow_key('rsa2048', slot)       # generated once here; the forked workers inherit the octets
     nproc = min(16, os.cpu_count() or 1)
     nchunks = nproc * 4
+    # the slow RSA assignments are dealt round-robin first so that every worker gets its share
+    asgs.sort(key=lambda a: a[2] != 'rsa')
     chunks = [asgs[i::nchunks] for i in range(nchunks)]
     ctx = multiprocessing.get_context('fork')
     with ctx.Pool(nproc) as pool:
         parts = pool.map(_worker, [(c, i) for i, c in enumerate(chunks)], chunksize=1)
     results = [r for p in parts for r in p]
+    # smallest keys first, so that the first case of a failure class is a small one
+    results.sort(key=lambda r: (len(r['case'].get('subs') or ()), sum(len(b) for b in r['case'].get('subs') or ()), r['case'].get('p1') is not None))
     distinct = set()
     first, counts, known_hits = collections.OrderedDict(), collections.Counter(), []
     unenforced = collections.Counter()
@@ -418,7 +491,7 @@ def component(tier='quick', seed=0, known=()):
         c = r['case']
         if r['nontrivial']:
             distinct.add(repr(sorted(c.items(), key=lambda kv: kv[0])))
-        if 'used' in c and c['used'] is not None:
+        if c.get('used') is not None:
             n = len(c.get('subs', []))
             unenforced['primary' if c['used'] == 0 else ('last subkey' if c['used'] == n else 'another subkey')] += 1
         if r['problem']:
@@ -433,17 +506,19 @@ def component(tier='quick', seed=0, known=()):
             first.setdefault(key, case)
     violations = [{'case': c, 'what': '%s [%s]' % (c['problem'], c['kind']), 'count': counts[k]} for k, c in list(first.items())[:6]]
     nsets = 6 if tier == 'quick' else 8
+    fams = collections.Counter(a[1] for a in asgs)
     return {'name': 'C16/usage-policy',
-            'bound': 'all assignments of %d flag sets to an RSA-2048 primary and 0..3 RSA-2048 subkeys (%d assignments; forms public+private for all, '
-                     'locked/unlocked for every 4th, only-the-signing-subkey-locked for every 9th), plus %d seeded assignments with re-bound '
-                     'subkeys at later and equal times, two identities with different flags and 8 flag sets (all four forms), a key without '
-                     'identity, and 4 Ed25519/Curve25519 keys; enforcement on and off; operations sign, certify, encrypt, decrypt (each '
-                     'component addressed), plus revoke/bind refusal on public keys'
-                     % (nsets, sum(1 for a, o in asgs if o == 'grid'), sum(1 for a, o in asgs if o != 'grid')),
+            'bound': 'all assignments of %d flag sets to primary + 0..3 subkeys in family S (all components can sign; %d keys) and of %d x 6 '
+                     'sign-free sets in family E (all subkeys ECDH; %d keys): forms public+private for all, locked/unlocked for every 4th, '
+                     'only-the-signing-subkey-locked for every 9th of S; plus %d seeded mixed-algorithm keys with re-bound subkeys at later '
+                     'and equal times and two identities with different flags (all forms), %d seeded RSA-2048 keys where every component '
+                     'can do everything, and keys without identity; enforcement on and off; operations sign, certify, encrypt, decrypt '
+                     '(each component addressed), revoke/bind refusal on public keys' % (nsets, fams['S'], nsets, fams['E'], fams['M'], fams['R']),
             'cases': len(results),
             'distinct_nontrivial': len(distinct),
             'rule': 'one case = one operation attempt on one (assignment, key form, enforcement, identity choice / addressed component); '
-                    'non-trivial = the key has at least one subkey',
+                    'non-trivial = the key has at least one subkey; attempts whose outcome the property does not prescribe (a component whose '
+                    'algorithm cannot perform the operation is selected) are not run and not counted',
             'exhaustive': True,
             'assignments': len(asgs),
             'unenforced_choice': dict(unenforced),
